@@ -148,7 +148,17 @@ impl Property for C11 {
                 break;
             }
             let expected = expected_diagnostics(&s.tw, &texts, &name);
-            let published = s.c.last_diagnostics();
+            let mut published = s.c.last_diagnostics();
+            // a mismatch is only believed after the server has been observed a second time (see
+            // LspSession::resettle): a wrong final state stays wrong, a publication still on its way arrives
+            let differs = |published: &BTreeMap<String, (Option<i64>, Vec<serde_json::Value>)>| published.iter().any(|(uri, (_, got))| *got != expected.get(uri).cloned().unwrap_or_default()) || expected.keys().any(|u| !published.contains_key(u));
+            if differs(&published) {
+                if !s.resettle() {
+                    verdict = Some(Verdict::Skip("not-idle"));
+                    break;
+                }
+                published = s.c.last_diagnostics();
+            }
             for (uri, (_, got)) in &published {
                 let want = expected.get(uri).cloned().unwrap_or_default();
                 if *got != want {
